@@ -6,6 +6,16 @@ Theorems about the state machine of `BppModel/RandGen.lean`: the generator is an
 `setSeed` overwrites it, every modelled routine is a function of (state, arguments) only (`exec`).
 Everything here holds for EVERY interpretation `P` of the standard library's primitives, every
 history and every initial state.
+
+What these theorems are NOT: evidence about the code.  `reproducible` is the determinism of a pure
+functional model in which `setSeed` overwrites the only state (with an empty history it is `rfl`);
+its whole content is the modelling decision "the generator is the only state: every std::
+distribution object is constructed inside the call that uses it" (RandomTools.h:99-202;
+ContingencyTableGenerator.cpp:68-71 re-initialises `jwork_`), which is TRUSTED.  The evidence for
+the clause "with a fixed seed the stream is reproducible" is the execution of `repro` / `repro1`
+(28 routines, two different histories before the same seed each) — which also cover what `Call`
+does not have (the rejection loops of the `<Family>::randC`, `rand()` through the families) — and
+`hidden_state_breaks_reproducibility` shows what the model would be if that reading were wrong.
 -/
 namespace Bpp.C18
 open Bpp Bpp.Rand Bpp.RandGen
